@@ -164,6 +164,7 @@ def _memo_derived(v, trace):
 @rule('S7', floor=3, title='named sub-containers: one handle per name, created only when the name is absent (never by truthiness)')
 def s7(ctx):
     obs = []
+    kind_tables = {}
     for name in ('cache', 'deque', 'index'):
         f = ctx.method('FanoutCache', name)
         ok, why, wit = True, '', None
@@ -214,6 +215,25 @@ def s7(ctx):
                     ok, why, wit = False, 'returns something other than the stored container', fmt_trace(tr)
         obs.append(Ob('S7', 'FanoutCache.%s/one-handle-per-name' % name, ok and ncreate > 0 and nreuse > 0,
                       'FanoutCache.%s %s' % (name, why or 'has no create path or no reuse path'), f.loc(), wit))
+        # which table, and which key, the new container is stored under
+        for p in ctx.paths(f, 'default'):
+            for e in p.trace:
+                if e.kind == 'SETITEM' and any(x.k == 'selfattr' for x in values_in(e.d['base'])):
+                    tab = sorted(x.a[1] for x in values_in(e.d['base']) if x.k == 'selfattr')
+                    key = e.d.get('idx')
+                    kinds = tuple(sorted(str(x.val) for x in (values_in(key) if key is not None else []) if x.is_const))
+                    kind_tables.setdefault(name, set()).add((tuple(tab), kinds))
+    # the three kinds do not share entries: different tables, or keys that include the kind
+    clash = None
+    names = sorted(kind_tables)
+    for i, a in enumerate(names):
+        for b in names[i + 1:]:
+            if kind_tables[a] & kind_tables[b]:
+                clash = (a, b, sorted(kind_tables[a] & kind_tables[b]))
+    obs.append(Ob('S7', 'FanoutCache/kinds-do-not-share-entries', clash is None and len(kind_tables) == 3,
+                  'the named caches, deques and indexes are memoised in the same table under the same key (%s): '
+                  'asking for a deque called like an existing index returns the index' % (clash,),
+                  ctx.method('FanoutCache', 'cache').loc()))
     return obs
 
 
